@@ -2327,3 +2327,13 @@ def n_is_normal(ex, callee, a, env):
         return (e == 0 and m != 0) if sub else (0 < e < (1 << eb) - 1)
     fp = z3.fpBVToFP(bits, z3.Float32() if f.ty == 'f32' else z3.Float64())
     return z3.fpIsSubnormal(fp) if sub else z3.fpIsNormal(fp)
+
+
+@native(r'^(core::)?slice::<impl \[.*\]>::(split_at_checked|split_at_mut_checked)$|^(core::)?str::<impl str>::split_at_checked$', 'split_at_checked')
+def n_split_at_checked(ex, callee, a, env):
+    sl, i = as_slice(a[0]), a[1]
+    if not isinstance(i, int):
+        i = ex.concretize(i, 0, 64)
+    if i > sl.len:
+        return NONE()
+    return Some(Tup([Slice(sl.buf, sl.start, i, sl.is_str), Slice(sl.buf, sl.start + i, sl.len - i, sl.is_str)]))
